@@ -24,7 +24,7 @@ RULE = ('case = 2-3 concurrent callers (get / get_or_compute / forced get_or_com
         'an unforced get_or_compute that starts when a complete entry is stored and that no write overlaps does not invoke its computer; get computes nothing. '
         'non-trivial = schedule with >=1 context switch between the first and last step of some call; distinct = hash(config, choice sequence)')
 REQUIRED = ['process_level_schedules', 'schedules', 'exhaustive_pairs', 'context_switch_schedules', 'reads_overlapping_writes', 'truncate_window_schedules', 'mid_pickle_write_interleavings', 'failing_forced_computations', 'lock_blocked_events',
-            'three_caller_schedules', 'all_lines_schedules']
+            'three_caller_schedules', 'all_lines_schedules', 'schedules_of_independently_started_interpreters']
 ASSUMPTIONS = ['gate granularity = statements of cache.py touching shared state + lock and computer events; interleavings inside one write() call are not split',
                'get may answer NO_VALUE while nothing is stored or a write overlaps it; callers that both started before either returned may both compute']
 BUDGET = {'quick': 75, 'thorough': 1500}
@@ -348,6 +348,8 @@ def run_case(case) -> CaseResult:
                 res.count('all_lines_schedules')
             if cfg.get('processes'):
                 res.count('process_level_schedules')
+            if cfg.get('spawned'):
+                res.count('schedules_of_independently_started_interpreters')
             if res.violations:
                 break
         res.sample = {'cfg': cfg, 'mode': case['mode'], 'n': case['n']}
@@ -387,6 +389,11 @@ def cases(tier, seed):
         ops = [rng.choice(OPS_R) for _ in range(rng.choice([2, 2, 3]))]
         cfg = {'ops': ops, 'present': rng.random() < 0.5, 'same_object': False, 'cache': rng.choice(caches), 'processes': True}
         yield {'mode': rng.choice(['random', 'pct']), 'cfg': cfg, 'n': 12, 'seed': rng.randrange(1 << 30), 'gate_all': False}
+    # callers that are independently started interpreters (each with its own PYTHONHASHSEED): what they agree on must not depend on the process
+    for i in range(16 if tier == 'quick' else 300):
+        ops = [rng.choice(['goc', 'goc', 'force', 'get']), rng.choice(['goc', 'force'])]
+        cfg = {'ops': ops, 'present': rng.random() < 0.4, 'same_object': False, 'cache': rng.choice(caches3), 'processes': True, 'spawned': True, 'hashseed_base': i}
+        yield {'mode': rng.choice(['random', 'pct']), 'cfg': cfg, 'n': 3, 'seed': rng.randrange(1 << 30), 'gate_all': False}
     if tier == 'thorough':
         for a, b in itertools.combinations_with_replacement(OPS, 2):
             for present in (True, False):
